@@ -672,13 +672,13 @@ func generate(seed uint64, thorough bool) []Case {
 			}
 			combos := []vc{{"race_after", "before"}, {"race_after", "after"}, {"race_before", "before"}, {"race_before", "after"}}
 			nv := 2
-			if thorough {
+			if thorough && !big {
 				nv = 4
 			}
 			off := r.Intn(4)
 			for i := 0; i < nv; i++ {
 				x := combos[(off+i)%4]
-				if !thorough && i == 0 {
+				if nv == 2 && i == 0 {
 					x = combos[r.Intn(3)] // one of the three in which the stale call meets the new holder's record
 				}
 				add(Case{TTLms: ttl, Acq: acq(), End: x.pos, EndK: r.Range(1, 3), Cont: x.cont, ContU: r.Range(72, 96)})
